@@ -443,14 +443,26 @@ def public_save_stage(ctx):
     import shutil
     save = _save_mod()
     rng = ctx.rng
+    import os
+    import tempfile
     base = ctx.work / "c20_public"
+    bases = [base]
+    # a model directory on ANOTHER file system than the system temp directory (a rename from there would degrade to a copy)
+    shm = Path("/dev/shm")
+    try:
+        if shm.is_dir() and os.access(shm, os.W_OK) and os.stat(shm).st_dev != os.stat(tempfile.gettempdir()).st_dev:
+            bases.append(shm / f"verif_c20_{os.getpid()}")
+    except OSError:
+        pass
+    ctx.coverage["public_save_model_dirs"] = [str(b) for b in bases]
     real = dict(save.SAVERS)
     stubs = {k: ((lambda *a, **k_: None) if f is not save.save_json else f) for k, f in real.items()}
     plans = [0, 0, 1, 2] if ctx.quick else [0, 0, 0, 1, 1, 2, 3, 4]
     try:
         save.SAVERS.clear()
         save.SAVERS.update(stubs)
-        for pi, n_earlier in enumerate(plans):
+        for pi, n_earlier in enumerate(plans + [1] * (len(bases) - 1)):
+            base = bases[0] if pi < len(plans) else bases[1 + pi - len(plans)]
             earlier = [{"name": f"old{i}", "out": entry_spec(rng, "tiny" if i else "small")} for i in range(n_earlier)]
             new_out = sl.build_output(entry_spec(rng, rng.choice(["tiny", "small"])))
             model_dir = base / "model"
@@ -516,8 +528,9 @@ def public_save_stage(ctx):
     finally:
         save.SAVERS.clear()
         save.SAVERS.update(real)
-        if base.exists():
-            shutil.rmtree(base)
+        for b_ in bases:
+            if b_.exists():
+                shutil.rmtree(b_, ignore_errors=True)
 
 
 def run(ctx, proof):
